@@ -361,7 +361,7 @@ def case_script(case):
 
 
 def campaign(ctx):
-    n = {"quick": 300, "thorough": 6000}[ctx.tier]
+    n = {"quick": 700, "thorough": 6000}[ctx.tier]
     runner.run_hypothesis(ctx, case_strategy(ctx.tier), runner.guarded(run_case), n)
 
 
